@@ -18,6 +18,7 @@ def run(ctx):
     parts = g.gen_statements(ctx, "selectq" if ctx.quick else "select")
     parts.append(("deep", g.gen_deep(ctx, 6000 if ctx.quick else 60000, 4 if ctx.quick else 5)))
     parts.append(("names", g.gen_names(ctx)))
+    parts.append(("dict", g.gen_dict(ctx)))
     for name, cf in parts:
         of = ctx.path("obs_%s.ndjson" % name)
         ctx.drive("c01", cf, of)
